@@ -737,6 +737,54 @@ def outgroup_class(op, snap, before):
     return None
 
 
+def problem_kinds(problems):
+    kinds = set()
+    for p in problems:
+        if "seed node has a parent" in p:
+            kinds.add("seed-has-parent")
+        elif "reached twice" in p:
+            kinds.add("shared")
+        elif "parent pointer" in p:
+            kinds.add("parent-mismatch")
+        elif "edge.head_node" in p:
+            kinds.add("edge-head")
+        elif "edge.tail_node" in p:
+            kinds.add("edge-tail")
+        elif "does not terminate" in p:
+            kinds.add("walk-diverges")
+        else:
+            kinds.add("other")
+    return "+".join(sorted(kinds))
+
+
+def outcome_tag(snap):
+    """the observed failure mode: how the call ended and in what state it left the tree.  A known-finding key is
+    <argument class>:<outcome tag>, so any OTHER outcome on the same argument class has an unlisted key"""
+    how = "returned" if snap["err"] is None else snap["err"]
+    if snap["tree"] is None or snap["problems"]:
+        return "%s-%s" % (how, problem_kinds(snap["problems"]))
+    return "%s-wellformed" % how
+
+
+# keys used before they carried the outcome: accepted only for exactly the outcome the unchanged library shows
+LEGACY_KEYS = {
+    "add_child-attached-node:returned-parent-mismatch+shared": "ill-formed:add_child-attached-node",
+    "insert_child-attached-node:returned-parent-mismatch+shared": "ill-formed:insert_child-attached-node",
+    "set_child_nodes-attached-node:returned-parent-mismatch+shared": "ill-formed:set_child_nodes-attached-node",
+    "to_outgroup-parent-is-unifurcation-seed:returned-seed-has-parent": "to_outgroup-parent-is-unifurcation-seed",
+    "to_outgroup-outgroup-is-unifurcation:ValueErr-wellformed": "to_outgroup-outgroup-is-unifurcation",
+    "prune-reaches-seed:AttrErr-wellformed": "prune-reaches-seed-attribute-error",
+    "prune_nodes-ignores-update_bipartitions:returned-wellformed-stale-masks": "prune_nodes-ignores-update_bipartitions",
+}
+
+
+def final_key(key):
+    known = core.load_known("C03")
+    if key in known or key not in LEGACY_KEYS:
+        return key
+    return LEGACY_KEYS[key] if LEGACY_KEYS[key] in known else key
+
+
 def oracle_steps(case, obs, probe_key=None):
     before = case["init"]
     for step, (op, snap) in enumerate(zip(case["ops"], obs)):
@@ -750,12 +798,14 @@ def oracle_steps(case, obs, probe_key=None):
                         else "raised %s" % (snap["aux"].get("msg")))
                 return ("%s to_outgroup_position with suppress_unifurcations=True: the unifurcation suppression "
                         "inside reseed_at deleted %s before the outgroup was repositioned: %s"
-                        % (where, "the outgroup node" if "outgroup-is" in oc else "the outgroup's parent (the seed)", what), oc)
+                        % (where, "the outgroup node" if "outgroup-is" in oc else "the outgroup's parent (the seed)", what),
+                        "%s:%s" % (oc, outcome_tag(snap)))
         if snap["tree"] is None:
-            return ("%s: %s" % (where, snap["problems"][0]), "cyclic:" + key)
+            return ("%s: %s" % (where, snap["problems"][0]),
+                    ("%s:%s" % (probe_key, outcome_tag(snap))) if probe_key else "cyclic:" + key)
         if snap["problems"]:
             return ("%s the tree is not a well-formed arborescence: %s" % (where, "; ".join(snap["problems"][:3])),
-                    "ill-formed:" + key)
+                    ("%s:%s" % (probe_key, outcome_tag(snap))) if probe_key else "ill-formed:" + key)
         after = snap["tree"]
         ids = [n["id"] for n in trees.preorder(after)]
         if len(set(ids)) != len(ids):
@@ -778,7 +828,7 @@ def oracle_steps(case, obs, probe_key=None):
                 return ("%s raised AttributeError ('NoneType' object has no attribute 'remove_child') because the "
                         "node to prune is the seed (every leaf pruned, or the seed's own taxon selected), instead of "
                         "a documented error such as filter_leaf_nodes' SeedNodeDeletionException" % where,
-                        "prune-reaches-seed-attribute-error")
+                        "prune-reaches-seed:%s" % outcome_tag(snap))
             return ("%s raised an undocumented %s (%s)" % (where, err, snap["aux"].get("msg")),
                     "undocumented-%s:%s" % (err, key))
         # leaf taxa multiset
@@ -797,14 +847,15 @@ def oracle_steps(case, obs, probe_key=None):
         if snap.get("bip"):
             if name == "PruneNodes" and not op[2]:
                 return ("%s prune_nodes(prune_leaves_without_taxa=False) ignores update_bipartitions=True: %s"
-                        % (where, snap["bip"]), "prune_nodes-ignores-update_bipartitions")
+                        % (where, snap["bip"]), "prune_nodes-ignores-update_bipartitions:%s-stale-masks" % outcome_tag(snap))
             return ("%s update_bipartitions=True: %s" % (where, snap["bip"]), "bipartitions-stale:" + key)
         before = after
     return None
 
 
 def oracle(case, obs):
-    return oracle_steps(case, obs, case.get("probe"))
+    v = oracle_steps(case, obs, case.get("probe"))
+    return None if v is None else (v[0], final_key(v[1]))
 
 
 # --------------------------------------------------------------------------------------------
